@@ -55,6 +55,7 @@ typedef struct scn {
 	int         nreq;      // 1 = socket, 2 = two contexts
 	int         retry[2];  // RESEND or -1 (infinite)
 	int         big;       // request bodies of BIGBODY bytes
+	int         sockdflt;  // the socket keeps its default resend time (60 s); only the contexts are set
 } scn;
 #define BIGBODY 120000
 static int        g_depth;
@@ -631,8 +632,9 @@ run_retry(void *arg)
 	vh_init(0);
 	VH_OK(nng_req0_open(&S));
 	VH_OK(nng_socket_set_ms(S, NNG_OPT_REQ_RESENDTICK, TICK));
-	VH_OK(nng_socket_set_ms(S, NNG_OPT_REQ_RESENDTIME,
-	    sc->retry[0] < 0 ? NNG_DURATION_INFINITE : sc->retry[0]));
+	if (!sc->sockdflt)
+		VH_OK(nng_socket_set_ms(S, NNG_OPT_REQ_RESENDTIME,
+		    sc->retry[0] < 0 ? NNG_DURATION_INFINITE : sc->retry[0]));
 	if (sc->nreq == 2)
 		for (int i = 0; i < 2; i++) {
 			VH_OK(nng_ctx_open(&CX[i], S));
@@ -1067,6 +1069,7 @@ main(int argc, char **argv)
 		{ "2ctx-infinite", 2, { -1, -1 } },
 		{ "2ctx-infinite+100", 2, { -1, RESEND } },
 		{ "2ctx-resend100-big", 2, { RESEND, RESEND }, 1 },
+		{ "2ctx-resend100-sock60s", 2, { RESEND, RESEND }, 0, 1 },
 	};
 	static int full[F_NLETTER];
 	for (int i = 0; i < F_NLETTER; i++)
@@ -1074,7 +1077,7 @@ main(int argc, char **argv)
 	g_map   = full;
 	g_nmap  = F_NLETTER;
 	g_depth = T ? 3 : 2;
-	for (int i = 0; i < 7; i++) {
+	for (int i = 0; i < 8; i++) {
 		if (vx_time_left() < 30)
 			break;
 		explore(&SC[i]);
